@@ -444,7 +444,7 @@ class Fn:
             place = x
         local, proj = place
         ps = [p for p in proj_str(proj)]
-        def with_proj(base):
+        def with_proj(base, ps=ps):
             out = base
             for p in ps:
                 if p == "*":
@@ -466,6 +466,11 @@ class Fn:
         rv = sd[2]
         k = rv[0]
         if k == "use":
+            # a field of a copied tuple / closure value: look through the copy at the aggregate
+            if ps and ps[0].isdigit() and op_place(rv[1]) is not None and not op_place(rv[1])[1]:
+                src = self._agg_behind(op_place(rv[1])[0])
+                if src is not None and int(ps[0]) < len(src[2]):
+                    return with_proj(self.sym(src[2][int(ps[0])], depth + 1), ps[1:])
             return with_proj(self.sym(rv[1], depth + 1))
         if k in ("ref", "raw"):
             return with_proj("&" + self.sym(rv[2], depth + 1))
@@ -484,6 +489,9 @@ class Fn:
             return with_proj("%s(%s)" % (nm, ", ".join(self.sym(a, depth + 1) for a in c.args)))
         if k == "agg":
             kind = rv[1]
+            if ps and ps[0].isdigit() and (kind == "tuple" or (isinstance(kind, list) and kind[0] == "closure")) and int(ps[0]) < len(rv[2]):
+                # a field of a tuple / a capture of a closure built here: the operand itself
+                return with_proj(self.sym(rv[2][int(ps[0])], depth + 1), ps[1:])
             if isinstance(kind, list) and kind[0] == "adt":
                 nm = "%s::%s" % (kind[1].split("::")[-1], kind[2])
                 return with_proj("%s{%s}" % (nm, ", ".join(self.sym(a, depth + 1) for a in rv[2])))
@@ -491,6 +499,23 @@ class Fn:
                 return with_proj("%s:%s" % (kind[0], kind[1]))
             return with_proj("%s(%s)" % (kind, ", ".join(self.sym(a, depth + 1) for a in rv[2])))
         return with_proj("tmp%d" % local)
+
+    def _agg_behind(self, local, depth=0):
+        """the tuple / closure aggregate rvalue a local is a plain copy of (single definitions
+        only), else None"""
+        if depth > 6 or 1 <= local <= self.argc:
+            return None
+        sd = self.single_def(local)
+        if sd is None:
+            return None
+        rv = sd[2]
+        if rv[0] == "agg" and (rv[1] == "tuple" or (isinstance(rv[1], list) and rv[1][0] == "closure")):
+            return rv
+        if rv[0] == "use":
+            pl = op_place(rv[1])
+            if pl is not None and not pl[1]:
+                return self._agg_behind(pl[0], depth + 1)
+        return None
 
     def _def_on_path(self, local):
         """for a local with several definitions: the last whole-local definition executed on the
